@@ -93,6 +93,7 @@ let holds _ c impl = match parse c with
      | (h, v) :: _ -> "fail GetMedianTimePast at height " ^ string_of_z h ^ " returned " ^ v ^ " which is not the median of the last min(11,h+1) times")
   | Seqlock (t, flags, prev, chain) ->
     if impl = "abort" then "na" else
+    if String.length impl >= 5 && String.sub impl 0 5 = "CRASH" then "fail the implementation aborted on an input in the specified domain" else
     let s = b01 (Model.spec_sequence_locks_b t flags prev chain) in
     (match words impl with
      | _ :: _ :: ev :: sl :: _ ->
